@@ -72,12 +72,26 @@ def run(repo, rep, tier):
     loop = [n for n in body_walk(parse) if isinstance(n, ast.While)]
     loop_ok = bool(loop) and U(loop[0].test).replace(" ", "") == "self.offset<len(self.formula)"
     rep.ob("C18.R1", loop[0] if loop else parse, "scanning loop runs while offset < len(formula)", loop_ok, "", key="C18.R1@loop-guard")
+    # the dispatch: ``dispatcher[c]()`` under ``c in dispatcher``, or ``f = dispatcher.get(c)`` / ``f()`` under ``f is not None``
     disp_calls = [n for n in body_walk(parse) if isinstance(n, ast.Call) and isinstance(n.func, ast.Subscript) and U(n.func.value) == "dispatcher"]
+    disp_names = {}
+    for n in body_walk(parse):
+        if isinstance(n, ast.Assign) and len(n.targets) == 1 and isinstance(n.targets[0], ast.Name) and isinstance(n.value, ast.Call) \
+                and U(n.value.func) == "dispatcher.get" and len(n.value.args) == 1:
+            disp_names[n.targets[0].id] = U(n.value.args[0])
+    key_txt = U(disp_calls[0].func.slice) if disp_calls else None
+    guard_txts = ["curr_char in dispatcher"]
+    if not disp_calls:
+        via = [n for n in body_walk(parse) if isinstance(n, ast.Call) and isinstance(n.func, ast.Name) and n.func.id in disp_names and not n.args]
+        disp_calls = via
+        if via:
+            key_txt = disp_names[via[0].func.id]
+            guard_txts = [f"{via[0].func.id} is not None", f"{via[0].func.id}"]
     in_loop = bool(disp_calls) and bool(loop) and any(disp_calls[0] is x for x in ast.walk(loop[0]))
-    key_ok = bool(disp_calls) and U(disp_calls[0].func.slice) == "curr_char" and any(
+    key_ok = bool(disp_calls) and key_txt == "curr_char" and any(
         isinstance(n, ast.Assign) and U(n.targets[0]) == "curr_char" and U(n.value) == "self.formula[self.offset]" for n in body_walk(parse))
     guard_ok = bool(disp_calls) and isinstance(getattr(disp_calls[0], "_parent", None), ast.AugAssign) and any(
-        isinstance(n, ast.If) and U(n.test) == "curr_char in dispatcher" and any(disp_calls[0] is x for x in ast.walk(ast.Module(body=n.body, type_ignores=[]))) for n in body_walk(parse))
+        isinstance(n, ast.If) and U(n.test) in guard_txts and any(disp_calls[0] is x for x in ast.walk(ast.Module(body=n.body, type_ignores=[]))) for n in body_walk(parse))
     rep.ob("C18.R1", disp_calls[0] if disp_calls else parse, "dispatch: offset += dispatcher[formula[offset]]() under `curr_char in dispatcher`, inside the loop", in_loop and key_ok and guard_ok, "",
            key="C18.R1@dispatch-site")
     pre_ok = not direct_calls and not movers and loop_ok and in_loop and key_ok and offset_stable
@@ -99,6 +113,8 @@ def run(repo, rep, tier):
 
     def extra_resolve(call, func, cls):
         if isinstance(call.func, ast.Subscript) and U(call.func.value) == "dispatcher":
+            return [methods[m][0] for m in consumer_names]
+        if isinstance(call.func, ast.Name) and call.func.id in disp_names and getattr(func, "name", "") == "parse":
             return [methods[m][0] for m in consumer_names]
         return None
 
@@ -186,9 +202,10 @@ def run(repo, rep, tier):
         detail = (f"{m}: for {chs[:8]} neither the scanning loop nor the consumer saves the pending operand before the new token is emitted"
                   + (f" (line {late[0].lineno})" if late else "") + ": the operand text would be emitted after the operator")
     rep.ob("C18.R2", cons_node, "every operator, closer and separator character ends the pending operand before its own token is emitted", ok, detail, key="C18.R2@enders")
+    flush_ok, flush_detail = ok, detail
     ok = all(len(x) in (1, 2) and x[0] in set(op_chars) for x in two) and bool(two)
     rep.ob("C18.R2", po, f"two-character operators {two} start with registered operator characters", ok, "", key="C18.R2@two-char")
-    rep.ob("C18.R2", fl[0] if fl else parse, "pending operand is flushed before an ender is dispatched (in the loop or in every consumer)", ok, detail, key="C18.R2@flush-before-dispatch")
+    rep.ob("C18.R2", fl[0] if fl else parse, "pending operand is flushed before an ender is dispatched (in the loop or in every consumer)", flush_ok, flush_detail, key="C18.R2@flush-before-dispatch")
 
     # ---- R3 consumption accounting
     def returns_of(f):
